@@ -30,6 +30,37 @@ CHECKS["C09"] = ("model_checking",
    "Every execution of the C01 jobs (LF, CR and CRLF are alphabet members, so a line break is taken in every reachable tokenizer state, in every chunk position) is checked against the line R-tok derives from the number of characters the spec algorithm has consumed at emission: exact for tags, comments, doctypes and EOF; for a character piece the line of the spec position of its last character with one character of look-ahead tolerance; never decreasing.",
    "Same alphabet/abstraction/trusted base as C01. Forwarding through set_current_line is checked by the tree-level checks. Chunk independence of the numbers is C03.",
    "DESIGN.md §3 C09", "E1 tok")
+E2NOTE = "Sigma_tree = 168 lexemes, one per rule-equivalence class of tag names (incl. select family, foreign content, template, frameset, ruby, meta); names outside the classes are assumed to behave like x/span. Jobs: J0 all lexeme strings from the empty document (depth 3 quick / 4 thorough, scripting on/off, +srcdoc/quirks/shadow in thorough), J1 from 46 insertion-mode witnesses (depth 2/3), J2 nine themed sub-alphabets (depth 5/7), J3 35 fragment contexts (depth 2/3); one chunk per lexeme so every token boundary is a suspension point. State key = tokenizer dump + tree-builder dump (handles as model node ids) + model DOM."
+CHECKS["C04"] = ("fault_enumeration",
+   "every execution of the explicit-state tree search + tree-builder state invariants + option lattice + scale grid in child processes",
+   "Every execution of the E2 jobs is a totality test (catch_unwind; feed() must leave the queue empty unless it reports a suspension; end() returns) and the tree-builder hook dump is checked at every suspension point for the cross-module invariants the panics depend on (orig_mode set iff Text/InTableText, template_modes length = open templates, open_elems[0] is html, pending_table_text empty outside InTableText, only elements on the stacks). Plus all 64 option vectors x all lexeme strings of length <=2 in one chunk and per-lexeme chunks, and a scale grid (16 nesting/length shapes x n up to 10^4 / 3*10^4, HTML document + fragment + XML, parse + serialize + drop) in child processes so stack overflow or abort is observable. The token-level jobs (C01/C03) enforce exactly one EOF, last.",
+   E2NOTE + " 'No hang' is decided by a 300 s watchdog per scale point; allocation failure out of scope.",
+   "DESIGN.md §3 C04", "E2 tree")
+CHECKS["C05"] = ("model_checking",
+   "explicit-state search over the real tokenizer+tree builder with a contract monitor on every TreeSink call",
+   "The monitored model sink validates every call the tree builder makes, in every execution of the E2 jobs: element-only operations receive elements created by this sink (template for get_template_contents, option for the selectedcontent hook, form-associated element + form for associate_with_form, script for mark_script_already_started), appended nodes are parentless, no node goes under itself or a descendant, the reference sibling of insert-before has a parent and is not text, at most one doctype and before any element, no attribute list with two equal qualified names.",
+   E2NOTE + " XML tree builder calls go through the same monitor in the C16 jobs.",
+   "DESIGN.md §3 C05", "E2 tree")
+CHECKS["C06"] = ("model_checking",
+   "explicit-state search; skeleton predicate evaluated on the final DOM of every document-parse execution",
+   "After end() of every execution of the document-parse E2 jobs the model DOM must have: at most one doctype preceded only by comments, exactly one element child html whose element children are head then body, or head then frameset [noframes]; no adjacent text siblings, no empty text, no text under the document, only whitespace text under html, children only under elements/fragments, consistent parent links.",
+   E2NOTE + " Other chunkings of the same inputs are C03's job.",
+   "DESIGN.md §3 C06", "E2 tree")
+CHECKS["C18"] = ("fault_enumeration",
+   "explicit-state search with a simulated collector at every suspension point + exhaustive single script-detach deviations",
+   "At every suspension point (chunk boundary after every lexeme, script pause, encoding indicator) of every execution the harness calls trace_handles, computes the closure of the traced nodes under parent/child/template-contents/host links in the model DOM and marks every other node as collected; any later sink call that mentions a collected node is a violation. Deviation family: at one suspension point a script detaches one attached element (every element, every suspension point, of every mode witness followed by every lexeme, 1.4e5 runs quick), which is exactly the situation the WARNING in the source is about.",
+   E2NOTE + " Detach deviations bounded to one per run.",
+   "DESIGN.md §3 C18", "E2 tree")
+CHECKS["C20"] = ("model_checking",
+   "explicit-state search with every sink call teed into the real RcDom and compared with the abstract DOM",
+   "Every TreeSink call of every E2 execution (full alphabet incl. select/selectedcontent, template, foster parenting, adoption agency) is applied to both the abstract DOM and a real RcDom; after each execution the trees must be equal (kinds, names, prefixes, attributes after add_attrs_if_missing, text merging, order, template contents, cloned option content), every RcDom parent link must name exactly the node whose child list contains it (also for detached subtrees), and SerializableHandle::serialize must visit each node once in document order.",
+   E2NOTE + " Direct (non-parser) operation sequences are not yet explored.",
+   "DESIGN.md §3 C20", "E2 tree")
+CHECKS["C14"] = ("exploration",
+   "exhaustive sweep of the finite reference space against R-tok + python's entity table",
+   "All 2231 names x {exact, last character dropped} x 16 followers x {data, RCDATA, attribute dq/sq/uq}, each unchunked and cut at every position inside the reference; audit of web_atoms::NAMED_ENTITIES against the table (values, prefix entries, nothing extra); every numeric value 0..=0x110000 as decimal, #x lower, #X upper, #x upper, with and without ';' (all cuts and all contexts in thorough); overflow digit counts up to 22; non-references.",
+   "Expected values from R-tok's character-reference states over python's html.entities.html5 (independent copy of the WHATWG table).",
+   "DESIGN.md §3 C14", "E4 sweep")
 PENDING = {}
 def main():
     checks = []
